@@ -2,7 +2,7 @@
 EXTENDS ResSubject, Json, TLC
 T == ndJsonDeserialize("table.ndjson")
 Rows == 2..Len(T)
-Exp(r) == IF r.kind = "ws" THEN WS(r.prefix, r.s) ELSE HTTP(r.prefix, r.s)
+Exp(r) == IF r.kind = "ws" THEN WS(r.prefix, r.s) ELSE IF r.kind = "http" THEN HTTP(r.prefix, r.s) ELSE SVC(r.kind, r.s)
 Got(r) == {Sub(x.t, x.n, x.m) : x \in Range(r.subs)}
 RowOK(r) ==
     LET e == Exp(r)
@@ -10,11 +10,14 @@ RowOK(r) ==
        /\ \A x \in Range(r.subs) : ~x.bad
        /\ \A x \in Range(r.msubs) : ~x.bad
        /\ IF e.valid
-          THEN /\ Got(r) = e.subs
+          THEN /\ IF r.kind \in {"ws", "http"} THEN Got(r) = e.subs
+                  ELSE Got(r) \subseteq e.subs /\ (r.kind = "svcres" => \E x \in Got(r) : x.t = "access")   \* the get may be served from cache
                /\ r.code # "system.invalidRequest"
                /\ \A x \in Range(r.msubs) : \E y \in e.subs : y.t = "get" /\ y.n = x.n
           ELSE /\ r.subs = <<>> /\ r.msubs = <<>>
-               /\ IF r.kind = "ws" THEN r.code = "system.invalidRequest" ELSE r.status = 404
+               /\ CASE r.kind = "ws" -> r.code = "system.invalidRequest"
+                    [] r.kind = "http" -> r.status = 404
+                    [] OTHER -> r.code # ""     \* rejected: the client gets an error, nothing is followed
 Bad == {i \in Rows : ~RowOK(T[i])}
 Hdr == T[1]
 WSDomain == UNION {[1..k -> Range(Hdr.ws)] : k \in 0..Hdr.maxlen}
